@@ -39,10 +39,41 @@ ASSUMPTIONS = [
 
 # ============================================================ generation
 
+def scenario_stopped_waiter(tp):
+    """Directed template: two routines wait on one Condition, the second on
+    a TempoClock that is stopped meanwhile; signalling raises half way
+    (ClockNotRunning).  The first routine then waits on another Condition
+    that never holds: a later signal on the first Condition must not wake
+    it again."""
+    d = tp.choice([0.25, 0.5, 1])
+    prog = {'t0': rprog.T0, 'clocks': [{'tempo': tp.choice([1, 2]),
+                                        'beats': 0}],
+            'routines': [
+                {'clock': 'sys', 'quant': None, 'seed': None,
+                 'body': [['spawn', 1], ['wait', 1 / 64], ['spawn', 2]]},
+                {'clock': 'sys', 'quant': None, 'seed': None,
+                 'body': [['rec'], ['cwait', 0], ['rec'], ['wait', d],
+                          ['rec'], ['cwait', 1], ['rec']]},
+                {'clock': 't0', 'quant': 0, 'seed': None,
+                 'body': [['rec'], ['cwait', 0], ['rec']]}]}
+    drv = [['sleep', 1.0], ['stopclock', 0], ['sleep', 0.25],
+           ['cset', 0, True], ['csignal', 0], ['sleep', 2 * d + 0.5],
+           ['csignal', 0], ['sleep', 0.25], ['cunhang', 0]]
+    return prog, [drv]
+
+
 def gen_case(tp, tier):
     kind = tp.choice(['seq', 'seq', 'sync', 'ctl'])
     if kind == 'seq':
         return gen_seq(tp, tier)
+    if kind == 'sync' and tp.draw(8) == 0:
+        prog, actors = scenario_stopped_waiter(tp)
+        # (bounded lateness: the driver's steps must stay ordered with the
+        # program's, or it stops the clock before the waiter got onto it)
+        kn = C.gen_knobs(tp, fault_free_pm=150, allow_big_lat=False)
+        kn['stall_max'] = 0.01
+        return {'kind': 'sync', 'prog': prog, 'actors': actors, 'knobs': kn,
+                'scenario': 'stopped-waiter'}
     feat = {'tempo_clocks': True, 'sync': kind == 'sync',
             'control': kind == 'ctl'}
     prog = rprog.gen(tp, feat, tier)
@@ -465,6 +496,7 @@ def run_rt(case, tape, emit):
     k = w.kernel
     main = w.main
     it = rprog.Interp(prog, main, 'rt', kernel=k, net=w.net)
+    import sc3.base.clock as sclk
     done = [False]
 
     def finalize(outcome):
@@ -488,7 +520,11 @@ def run_rt(case, tape, emit):
                 k.sleep(op[1])
             else:
                 with main._main_lock:        # linearisation point
-                    it.stmt(name, None, None, op)
+                    try:
+                        it.stmt(name, None, None, op)
+                    except sclk.ClockNotRunning:
+                        # a waiter sits on a stopped TempoClock
+                        it.event('op-raised', name, op[0], op[1])
 
     threads = []
     for a, ops in enumerate(case['actors'][1:], 1):
@@ -513,10 +549,28 @@ def check_sync(case, res, viol, stats):
     released = {}      # routine id -> number of outstanding releases
     fval = {}          # flow -> value
     fwait = {}         # flow -> list of routine ids
+    stopped = set()    # TempoClocks stopped by the program
+    prog0 = case['prog']
+
+    def release(lst, how):
+        # signal()/unhang() reschedule the waiters in order; one that sits
+        # on a stopped TempoClock makes the call raise there: the ones
+        # before it are released, what happens to the rest is unspecified
+        for r in lst:
+            if isinstance(r, int) and \
+                    prog0['routines'][r]['clock'] in stopped:
+                stats['waiter-on-stopped-clock'] = stats.get(
+                    'waiter-on-stopped-clock', 0) + 1
+                return
+            released[r] = released.get(r, 0) + 1
+            stats[how] = stats.get(how, 0) + 1
+
     for i, e in enumerate(res['trace']):
         ev = e['ev']
         rid = e['r']
-        if ev == 'cset':
+        if ev == 'stopclock':
+            stopped.add(f't{e["vals"][0]}')
+        elif ev == 'cset':
             test[e['vals'][0]] = e['vals'][1]
         elif ev == 'cwait':
             c = e['vals'][0]
@@ -529,18 +583,12 @@ def check_sync(case, res, viol, stats):
         elif ev == 'csignal':
             c = e['vals'][0]
             if test.get(c, False):
-                for r in waiting.pop(c, []):
-                    released[r] = released.get(r, 0) + 1
-                    stats['released-by-signal'] = stats.get(
-                        'released-by-signal', 0) + 1
+                release(waiting.pop(c, []), 'released-by-signal')
             elif waiting.get(c):
                 stats['signal-while-test-false'] = stats.get(
                     'signal-while-test-false', 0) + 1
         elif ev == 'cunhang':
-            for r in waiting.pop(e['vals'][0], []):
-                released[r] = released.get(r, 0) + 1
-                stats['released-by-unhang'] = stats.get(
-                    'released-by-unhang', 0) + 1
+            release(waiting.pop(e['vals'][0], []), 'released-by-unhang')
         elif ev == 'cwoke':
             if released.get(rid, 0) <= 0:
                 c = e['vals'][0]
